@@ -32,7 +32,7 @@ V("c01-dispatch-swap", "C01", SER,
   "fire", "Series._impedance:law")
 V("c01-sympy-parallel-sum", "C01", PAR, "                expr += 1 / element.to_sympy(\n                    substitute=substitute, identifier=identifiers[element]\n                )",
   "                expr += element.to_sympy(\n                    substitute=substitute, identifier=identifiers[element]\n                )", "fire", "Parallel.to_sympy:step")
-V("c01-limit-set", "C01", BASE, "                where(f == 0.0)[0],\n                where(isinf(f))[0],", "                where(f == 0.0)[0],", "fire", "limit-set")
+V("c01-limit-set", "C01", BASE, "                where(f == 0.0)[0],\n                where(isinf(f))[0],", "                where(f == 0.0)[0],", "fire", "_calculate_impedances:semantics")
 V("c01-circuit-list", "C01", "circuit/circuit.py", "                elements = Series(elements)\n", "                elements = Series([elements])\n", "fire", "list-in-connection")
 V("c01-benign-accumulate", "C01", SER, "            result += Z\n", "            result = result + Z\n", "silent")
 V("c01-benign-rename", "C01", SER, "        if not self._elements:\n            return complex(0, 0) * f\n\n        result: ComplexImpedances = zeros(f.shape, dtype=ComplexImpedance)",
